@@ -16,15 +16,15 @@ if [ $res = ok ]; then
   (go build ./... && go build -tags verif ./...) || { echo "does not compile"; res=nocompile; }
 fi
 if [ $res = ok ]; then
-  bash /verif/tools/baseline.sh $wt | tail -3 | tee /tmp/seedverify.base
-  grep -q "48 of 48" /tmp/seedverify.base || res=baselinefail
+  bash /verif/tools/baseline.sh $wt | tail -3 | tee /tmp/seedverify.$id.base
+  grep -q "48 of 48" /tmp/seedverify.$id.base || res=baselinefail
 fi
 if [ $res = ok ]; then
   cp $out/$x.demo_test.go demo_test.go
-  if go test ${DEMO_TAGS:+-tags $DEMO_TAGS} -vet=off -count=1 -run TestDemo . >/tmp/seedverify.demo1 2>&1; then echo "demo PASSES with the change (should fail)"; res=demonotfail; fi
+  if go test ${DEMO_TAGS:+-tags $DEMO_TAGS} -vet=off -count=1 -run TestDemo . >/tmp/seedverify.$id.demo1 2>&1; then echo "demo PASSES with the change (should fail)"; res=demonotfail; fi
   git checkout -- . ; git clean -fdq -e demo_test.go
   cp $out/$x.demo_test.go demo_test.go
-  if ! go test ${DEMO_TAGS:+-tags $DEMO_TAGS} -vet=off -count=1 -run TestDemo . >/tmp/seedverify.demo2 2>&1; then echo "demo FAILS without the change (should pass)"; tail -5 /tmp/seedverify.demo2; res=demonotpass; fi
+  if ! go test ${DEMO_TAGS:+-tags $DEMO_TAGS} -vet=off -count=1 -run TestDemo . >/tmp/seedverify.$id.demo2 2>&1; then echo "demo FAILS without the change (should pass)"; tail -5 /tmp/seedverify.$id.demo2; res=demonotpass; fi
   rm -f demo_test.go
 fi
 echo "seedverify $id $x: $res"
